@@ -161,9 +161,9 @@ theorem step_eq (op : Op) : a.step op = b.step op := by
   have : ({ a with out := [], snaps := [] } : Sys) = { b with out := [], snaps := [] } := by
     obtain ⟨h1, h2, h3, h4, h5, h6, h7, _⟩ := h.fields
     simp only [Sys.mk.injEq]
-    exact ⟨h1, h2, h3, h4, h5, h6, h7, rfl, rfl⟩
-  unfold Sys.step
-  simp only [this]
+    exact ⟨h1, h2, h3, h4, h5, h6, h7, trivial, trivial⟩
+  have e1 : ∀ s : Sys, s.step op = ({ s with out := [], snaps := [] } : Sys).step op := fun _ => rfl
+  rw [e1 a, e1 b, this]
 end
 
 end OutEq
